@@ -216,6 +216,33 @@ def run(res, tier, seed):
             d = rz.describe(c)
             res.violation(what="C03 %s" % reason, reason=reason, build=profile, ret=r.get("ret"), alg=d.get("alg", d.get("op", d.get("ctl"))), pt=d.get("pt"), cpu=d.get("cpu"), filter=d.get("filter"),
                           crop=c.get("opt", {}).get("crop"), fparam=c.get("opt", {}).get("fparam"), case=d)
+    # (D) whatever a constructor accepts must be usable: byte buffers at every misalignment 0..7, exact and oversized,
+    # for every pixel type; the accepted object is then resized (TraceC04: decision per Geometry!BufferDecisionOK and no
+    # panic in the use that follows)
+    from props.c04 import PT as PT4
+    ucases = []
+    for kind in ("Image::from_slice_u8", "ImageRef::new"):
+        for pt in rz.ALL_PT:
+            size, align = PT4[pt]
+            for (w, h) in ((3, 2), (1, 1), (5, 4)):
+                for off in range(8):
+                    for extra in (0, size, 1):
+                        ln = w * h * size + extra
+                        ucases.append({"op": "img_ctor", "kind": kind, "pt": pt, "w": w, "h": h, "len": ln, "off": off, "use": 1,
+                                       "echo": {"kind": kind, "pt": pt, "w": vlib.limbs(w), "h": vlib.limbs(h), "size": size, "align": align,
+                                                "len": vlib.limbs(ln), "off": off}})
+    for i, c in enumerate(ucases):
+        c["id"] = i
+    for profile in ("release", "dbg"):
+        binary = vlib.build_harness(profile)
+        wd = vlib.workdir("c03_ctor_" + profile)
+        urecs, utpath = vlib.run_harness(binary, ucases, wd)
+        tr = vlib.run_tlc_trace("TraceC04", utpath)
+        res.add_trace(tr, len(ucases), "TraceC04(constructors then use, " + profile + ")")
+        for (cid, reason) in tr["bad"]:
+            c = ucases[cid]
+            res.violation(what="C03 constructor " + reason, reason=reason, build=profile, kind=c["kind"], pt=c["pt"], off=c["off"], len=c["len"],
+                          ret=urecs[cid].get("ret"), use=urecs[cid].get("use"))
     # (C) clip-table index for custom kernels on the portable path
     clip = gen_clip(tier, rng)
     # on the debug-assertion build: no panic while sum |w| < 4 (the documented head-room)
